@@ -209,10 +209,20 @@ func (e *JSchemaError) pointerToTheErrorCharacter() string {
 	e.preparation()
 
 	content := e.file.Content()
+	if content.LenIndex() <= e.index {
+		// The index does not point into the content (for instance an error
+		// reported at the end of an empty text): nothing to count.
+		return "^"
+	}
 	begin := e.lineBeginning()
 	spaces := content.SubLow(begin).CountSpacesFromLeft()
 
 	i := int(e.index) - int(begin) - spaces
+	if i < 0 {
+		// The error is on a blank (e.g. a line break) before the first
+		// non-blank character of the quoted line.
+		i = 0
+	}
 	return strings.Repeat("-", i) + "^"
 }
 
